@@ -1480,7 +1480,11 @@ func (p *Parser) parseObjectLiteral() (object ObjectExpr) {
 				p.assumeArrowFunc = false
 
 				method.Params = p.parseFuncParams("method definition")
+
+				prevAllowDirectivePrologue := p.allowDirectivePrologue
+				p.allowDirectivePrologue = true
 				method.Body.List = p.parseStmtList("method definition")
+				p.allowDirectivePrologue = prevAllowDirectivePrologue
 
 				p.await, p.yield, p.retrn = prevAwait, prevYield, prevRetrn
 				p.exitScope(parent)
